@@ -53,17 +53,18 @@ def refdiff(p):
             none (list of positions whose item may be None: adds a bool arg)
     """
     desc, n, mode = p['desc'], p['n'], p.get('mode', 'per_t')
-    sig = ints('v', n)
+    nsym = min(n, p.get('nsym', n))          # long runs: only the first nsym items are symbolic, the others are the concrete values 0, 1, 2 ... (their index)
+    sig = ints('v', nsym)
     pre = []
     lo, hi = p.get('lo', -2 ** 40), p.get('hi', 2 ** 40)   # int64 accumulators (array('q') state) stay in range: overflow is outside every claim
     pre += rng([a for a, _ in sig], lo, hi) if not p.get('unbounded') else []
     if p.get('nondecr'):
-        pre += ['%s <= %s' % (sig[i][0], sig[i + 1][0]) for i in range(n - 1)]
+        pre += ['%s <= %s' % (sig[i][0], sig[i + 1][0]) for i in range(nsym - 1)]
         if n:
             pre += ['0 <= v0']
 
     def body(a):
-        items = list(a)
+        items = list(a) + list(range(nsym, n))
         real, ref = C.build(desc)
         if p.get('retry') is not None:
             # the same operator objects first serve a subscription aborted (rx-level error) after `retry` items
